@@ -1254,6 +1254,9 @@ func TestVerifC19(t *testing.T) {
 	// ---- ParseBlocklists on the text of the subnet entries, next to the model that reads the same text
 	c19TextPart(out, r)
 
+	// ---- the covert_blocklist_domains pattern list, next to the model in which the engine is a parameter
+	c19PatternPart(out, vlib.NewRand("C19-pattern"))
+
 	// ---- exhaustive over the liveness keys and over the policy keys, the other keys unset / random
 	pick := make([]int, len(c19LivenessKeys))
 	var rec func(keys []c19Key, i int, emit func())
@@ -1447,6 +1450,26 @@ func (w *c19World) replay(t *testing.T, out *vlib.Out, path string) {
 			}
 			c19TextCase(out, items(f[1]), items(f[2]), items(f[3]), nil)
 			fmt.Printf("REPLAY text lists %q %q %q\n", f[1], f[2], f[3])
+		case strings.HasPrefix(line, "c19pat|"):
+			f := strings.Split(line, "|")
+			if len(f) != 3 {
+				continue
+			}
+			items := func(x string) []string {
+				var l []string
+				if x == "-" {
+					return nil
+				}
+				for _, h := range strings.Split(x, "/") {
+					if h == "." {
+						h = "-"
+					}
+					l = append(l, unhex(h))
+				}
+				return l
+			}
+			c19PatCase(out, items(f[1]), items(f[2]))
+			fmt.Printf("REPLAY pattern list %q on hosts %q\n", items(f[1]), items(f[2]))
 		case strings.HasPrefix(line, "c19reload|"):
 			var evs []c19Event
 			for _, e := range strings.Split(strings.SplitN(line, "|", 2)[1], ",") {
